@@ -204,7 +204,9 @@ fn worker_thread(prop: &'static dyn Prop, tier: Tier, seed: u64, t: usize, nthre
         "C01" | "C09" | "C15" => 4,
         _ => 8,
     };
-    let total = prop.cases(tier, dev) * if tier == Tier::Quick { quick_scale } else { 1 };
+    // thorough: the per-property base counts times 10 (minutes per property on 16 cores)
+    let thorough_scale: u64 = if prop.id() == "C03" { 2 } else { 10 };
+    let total = prop.cases(tier, dev) * if tier == Tier::Quick { quick_scale } else { thorough_scale };
     let cases = (total / nthreads as u64) + if (t as u64) < total % nthreads as u64 { 1 } else { 0 };
     if cases == 0 {
         return stats;
